@@ -256,6 +256,30 @@ Definition is_alu_op (opc : Z) : bool :=
      gen_OpDiv; gen_OpDivInt; gen_OpRem; gen_OpRemInt; gen_OpNeg; gen_OpAnd; gen_OpAndNot; gen_OpOr; gen_OpXor;
      gen_OpShl; gen_OpShlInt; gen_OpShr; gen_OpShrInt].
 
+(* the `switch op` of VM.run for the fetched instruction i; s is the state after vm.pc++ *)
+Definition exec_instr (p : program) (f : func) (s : state) (i : instr) : sres :=
+  let opc := Z.abs (i_op i) in
+  if (i_op i <? 0) && negb (existsb (Z.eqb opc) gen_x_neg_ops) then
+    (* a negative operation without a `case -Op`: no case of the switch matches
+       (the switch has no default clause), nothing happens *)
+    if gen_x_has_default then SFault (FUnsupported (i_op i)) else SNext s
+  else if is_alu_op opc then of_xres s (step_alu s i opc)
+  else if (opc =? gen_OpConvertInt) || (opc =? gen_OpConvertUint) then of_xres s (step_convert f s i opc)
+  else if opc =? gen_OpMove then of_xres s (gen_x_OpMove f s i)
+  else if opc =? gen_OpIfInt then of_xres s (step_ifint s i)
+  else if opc =? gen_OpIfString then of_xres s (step_ifstring f s i)
+  else if opc =? gen_OpIndexString then of_xres s (gen_x_OpIndexString f s i)
+  else if opc =? gen_OpTypify then of_xres s (step_typify f s i)
+  else if opc =? gen_OpNone then SNext s
+  else if opc =? gen_OpLoad then of_xres s (gen_x_OpLoad f s i)
+  else if opc =? gen_OpGoto then of_xres s (gen_x_OpGoto f s i)
+  else if opc =? gen_OpConcat then of_xres s (gen_x_OpConcat f s i)
+  else if opc =? gen_OpLen then of_xres s (gen_x_OpLen f s i)
+  else if opc =? gen_OpCallFunc then step_callfunc p f s i
+  else if opc =? gen_OpCallNative then step_callnative f s i
+  else if opc =? gen_OpReturn then step_return s
+  else SFault (FUnsupported (i_op i)).
+
 (* one iteration of the loop of VM.run: in := vm.fn.Body[vm.pc]; vm.pc++; switch op *)
 Definition vm_step (p : program) (s0 : state) : sres :=
   match cur_func p s0 with
@@ -263,29 +287,7 @@ Definition vm_step (p : program) (s0 : state) : sres :=
   | Some f =>
     match nthZ (f_body f) (s_pc s0) with
     | None => SFault FBadPc
-    | Some i =>
-      let s := set_pc s0 (s_pc s0 + 1) in
-      let opc := Z.abs (i_op i) in
-      if (i_op i <? 0) && negb (existsb (Z.eqb opc) gen_x_neg_ops) then
-        (* a negative operation without a `case -Op`: no case of the switch matches
-           (the switch has no default clause), nothing happens *)
-        if gen_x_has_default then SFault (FUnsupported (i_op i)) else SNext s
-      else if is_alu_op opc then of_xres s (step_alu s i opc)
-      else if (opc =? gen_OpConvertInt) || (opc =? gen_OpConvertUint) then of_xres s (step_convert f s i opc)
-      else if opc =? gen_OpMove then of_xres s (gen_x_OpMove f s i)
-      else if opc =? gen_OpIfInt then of_xres s (step_ifint s i)
-      else if opc =? gen_OpIfString then of_xres s (step_ifstring f s i)
-      else if opc =? gen_OpIndexString then of_xres s (gen_x_OpIndexString f s i)
-      else if opc =? gen_OpTypify then of_xres s (step_typify f s i)
-      else if opc =? gen_OpNone then SNext s
-      else if opc =? gen_OpLoad then of_xres s (gen_x_OpLoad f s i)
-      else if opc =? gen_OpGoto then of_xres s (gen_x_OpGoto f s i)
-      else if opc =? gen_OpConcat then of_xres s (gen_x_OpConcat f s i)
-      else if opc =? gen_OpLen then of_xres s (gen_x_OpLen f s i)
-      else if opc =? gen_OpCallFunc then step_callfunc p f s i
-      else if opc =? gen_OpCallNative then step_callnative f s i
-      else if opc =? gen_OpReturn then step_return s
-      else SFault (FUnsupported (i_op i))
+    | Some i => exec_instr p f (set_pc s0 (s_pc s0 + 1)) i
     end
   end.
 
